@@ -1,0 +1,25 @@
+//go:build verif
+
+// Contracts for the deductive verifier in /verif (govc). Comments only.
+
+package fifo
+
+// Modifiers are appended: earlier ones keep their position.
+//@ func (*Group).AddRequestModifier
+//@ property C18 C04 C01
+//@ requires g != nil
+//@ modifies g.reqmods, elems(martian.RequestModifier)
+//@ ensures len(g.reqmods) == old(len(g.reqmods)) + 1 && g.reqmods[len(g.reqmods) - 1] == reqmod
+//@ ensures forall i int :: 0 <= i && i < old(len(g.reqmods)) ==> g.reqmods[i] == old(g.reqmods[i])
+
+//@ func (*Group).AddResponseModifier
+//@ property C18 C04
+//@ requires g != nil
+//@ modifies g.resmods, elems(martian.ResponseModifier)
+//@ ensures len(g.resmods) == old(len(g.resmods)) + 1 && g.resmods[len(g.resmods) - 1] == resmod
+//@ ensures forall i int :: 0 <= i && i < old(len(g.resmods)) ==> g.resmods[i] == old(g.resmods[i])
+
+//@ func NewGroup
+//@ property C18 C04
+//@ pure
+//@ ensures result != nil && fresh(result) && len(result.reqmods) == 0 && len(result.resmods) == 0 && !result.aggregateErrors
